@@ -61,6 +61,10 @@ fn reject_class(ev: Ev, input: &str) -> &'static str {
     match lex::lex(ev, input) {
         Err(()) => "lexical",
         Ok(ts) => {
+            if ts.len() > 24 {
+                // the prefix scan is quadratic: only worth it for short inputs
+                return "syntax";
+            }
             for k in (1..ts.len()).rev() {
                 if let Verdict::Accept(_) = grammar::parse_tokens(ev, &ts[..k]) {
                     return "prefix-is-wellformed";
